@@ -220,6 +220,12 @@ func (e *Exec) intrinsic(fn *ssa.Function, args []Value) (Value, bool) {
 		// logging, tracing and metrics libraries: no-ops with opaque results
 		return e.opaqueResults(fn.Signature, args), true
 	}
+	switch name {
+	case "(github.com/libp2p/go-libp2p/core/peer.ID).ShortString", "(github.com/libp2p/go-libp2p/core/peer.ID).String",
+		"(github.com/libp2p/go-libp2p/core/peer.ID).Loggable", "runtime/debug.Stack":
+		// formatting only: opaque text
+		return e.opaqueResults(fn.Signature, args), true
+	}
 	if r, ok := e.syncIntrinsic(fn, name, args); ok {
 		return r, true
 	}
